@@ -1090,17 +1090,6 @@ func (s *Server) publishToClient(cl *Client, sub packets.Subscription, pk packet
 		out.FixedHeader.Qos = s.Options.Capabilities.MaximumQos // [MQTT-3.2.2-9]
 	}
 
-	if cl.Properties.Props.TopicAliasMaximum > 0 {
-		var aliasExists bool
-		out.Properties.TopicAlias, aliasExists = cl.State.TopicAliases.Outbound.Set(pk.TopicName)
-		if out.Properties.TopicAlias > 0 {
-			out.Properties.TopicAliasFlag = true
-			if aliasExists {
-				out.TopicName = ""
-			}
-		}
-	}
-
 	if out.FixedHeader.Qos > 0 {
 		if cl.State.Inflight.Len() >= int(s.Options.Capabilities.MaximumInflight) {
 			// add hook?
@@ -1135,6 +1124,20 @@ func (s *Server) publishToClient(cl *Client, sub packets.Subscription, pk packet
 
 	if cl.Net.Conn == nil || cl.Closed() {
 		return out, packets.CodeDisconnect
+	}
+
+	// Topic aliases belong to the connection, not to the message: the copy kept in the
+	// in-flight store above keeps its topic name and no alias, so that it can be resent on a
+	// later connection; only the copy written to this connection is aliased.
+	if cl.Properties.Props.TopicAliasMaximum > 0 {
+		var aliasExists bool
+		out.Properties.TopicAlias, aliasExists = cl.State.TopicAliases.Outbound.Set(pk.TopicName)
+		if out.Properties.TopicAlias > 0 {
+			out.Properties.TopicAliasFlag = true
+			if aliasExists {
+				out.TopicName = ""
+			}
+		}
 	}
 
 	select {
